@@ -292,7 +292,7 @@ const AXIS_TAGS: &[&[u8; 4]] = &[
 
 fn coord(rng: &mut Rng) -> f64 {
     match rng.below(10) {
-        0 => *rng.pick(&[-1.0, -0.5, 0.0, 0.5, 1.0]),
+        0 => *rng.pick(&[-1.0, -0.5, 0.0, -0.0, 0.5, 1.0]),
         1 => rng.range(-16384, 16384) as f64 / 16384.0, // F2Dot14 grid
         2 => {
             // user value on a 400..700 style axis: (u - lo) / (hi - lo)
@@ -366,7 +366,7 @@ fn gen_ids(rng: &mut Rng) -> Vec<AnyId> {
             let loc: NormalizedLocation = tags
                 .iter()
                 .zip(&l)
-                .map(|(t, c)| (*t, NormalizedCoord::new(if *c == 0.0 { 0.0 } else { *c })))
+                .map(|(t, c)| (*t, NormalizedCoord::new(*c)))
                 .collect();
             ids.push(AnyId::Fe(FeId::KernInstance(loc)));
         }
@@ -398,8 +398,13 @@ fn gen_ids(rng: &mut Rng) -> Vec<AnyId> {
     ids
 }
 
+/// the text f64's `Display` gives a coordinate (−0.0 and 0.0 are one coordinate value: both cross as 0)
+fn display_text(v: f64) -> String {
+    if v == 0.0 { format!("{}", 0.0f64) } else { format!("{v}") }
+}
+
 fn s_loc(l: &NormalizedLocation) -> S {
-    S::list(l.iter().map(|(t, c)| S::list([S::hex(&t.to_be_bytes()), S::f64(c.to_f64())])))
+    S::list(l.iter().map(|(t, c)| S::list([S::hex(&t.to_be_bytes()), S::f64(c.to_f64()), S::str(&display_text(c.to_f64()))])))
 }
 
 fn s_id(id: &AnyId) -> S {
@@ -578,17 +583,20 @@ fn status_msg_of<T>(r: std::thread::Result<Result<T, fontc::Error>>) -> (String,
 
 #[derive(Default)]
 struct Audit {
-    /// (id description, kind, path, read-back equals memory); kind: "kern" | "post" | "empty-glyph" | "fvar" | ""
-    items: Vec<(String, &'static str, PathBuf, Option<bool>)>,
+    /// (id description, item kind, path, read-back equals memory). The kind names the context field
+    /// (`fe.glyph`, `be.gpos`, …) and, where a recorded defect has a recognisable signature in the
+    /// in-memory value, that signature (`be.post.empty-string-data`, `be.fvar.psname-ffff`,
+    /// `be.glyf_fragment.empty`).
+    items: Vec<(String, String, PathBuf, Option<bool>)>,
 }
 
 impl Audit {
-    fn item<T: Persistable + PartialEq>(&mut self, desc: String, kind: &'static str, path: PathBuf, mem: Option<Arc<T>>) {
+    fn item<T: Persistable + PartialEq>(&mut self, desc: String, kind: &str, path: PathBuf, mem: Option<Arc<T>>) {
         self.item_with(desc, kind, path, mem, |a, b| a == b)
     }
     /// write-fonts tables: `==`, or the same bytes when serialised again (their `PartialEq` also looks at
     /// representation details that do not survive, and do not matter to, serialisation)
-    fn table<T>(&mut self, desc: String, kind: &'static str, path: PathBuf, mem: Option<Arc<T>>)
+    fn table<T>(&mut self, desc: String, kind: &str, path: PathBuf, mem: Option<Arc<T>>)
     where
         T: Persistable + PartialEq + write_fonts::FontWrite + write_fonts::validate::Validate,
     {
@@ -599,7 +607,7 @@ impl Audit {
     fn item_with<T: Persistable>(
         &mut self,
         desc: String,
-        kind: &'static str,
+        kind: &str,
         path: PathBuf,
         mem: Option<Arc<T>>,
         eq: impl Fn(&T, &T) -> bool,
@@ -615,7 +623,7 @@ impl Audit {
             }
             Err(_) => None,
         };
-        self.items.push((desc, kind, path, same));
+        self.items.push((desc, kind.to_string(), path, same));
     }
 }
 
@@ -626,7 +634,7 @@ fn audit(dir: &Path, fe: &FeContext, be: &BeContext) -> Audit {
     let mut a = Audit::default();
     macro_rules! fe_item {
         ($field:ident, $id:expr) => {
-            a.item(format!("fe.{}", stringify!($field)), "", FeP::target_file(dir, &$id), fe.$field.try_get());
+            a.item(format!("fe.{}", stringify!($field)), concat!("fe.", stringify!($field)), FeP::target_file(dir, &$id), fe.$field.try_get());
         };
     }
     fe_item!(static_metadata, FeId::StaticMetadata);
@@ -640,13 +648,13 @@ fn audit(dir: &Path, fe: &FeContext, be: &BeContext) -> Audit {
     fe_item!(colors, FeId::ColorPalettes);
     fe_item!(paint_graph, FeId::PaintGraph);
     for (id, v) in fe.glyphs.all() {
-        a.item(format!("{id:?}"), "", FeP::target_file(dir, &id), Some(v));
+        a.item(format!("{id:?}"), "fe.glyph", FeP::target_file(dir, &id), Some(v));
     }
     for (id, v) in fe.anchors.all() {
-        a.item(format!("{id:?}"), "", FeP::target_file(dir, &id), Some(v));
+        a.item(format!("{id:?}"), "fe.anchor", FeP::target_file(dir, &id), Some(v));
     }
     for (id, v) in fe.kerning_at.all() {
-        a.item(format!("{id:?}"), "kern", FeP::target_file(dir, &id), Some(v));
+        a.item(format!("{id:?}"), "fe.kern_instance", FeP::target_file(dir, &id), Some(v));
     }
     macro_rules! be_table {
         ($field:ident, $id:expr, $kind:expr) => {
@@ -655,45 +663,57 @@ fn audit(dir: &Path, fe: &FeContext, be: &BeContext) -> Audit {
     }
     macro_rules! be_item {
         ($field:ident, $id:expr) => {
-            a.item(format!("be.{}", stringify!($field)), "", BeP::target_file(dir, &$id), be.$field.try_get());
+            a.item(format!("be.{}", stringify!($field)), concat!("be.", stringify!($field)), BeP::target_file(dir, &$id), be.$field.try_get());
         };
     }
     be_item!(avar, BeId::Avar);
-    be_table!(cmap, BeId::Cmap, "");
-    be_table!(colr, BeId::Colr, "");
-    be_table!(cpal, BeId::Cpal, "");
-    be_table!(fvar, BeId::Fvar, "fvar");
-    be_table!(gasp, BeId::Gasp, "");
+    be_table!(cmap, BeId::Cmap, concat!("be.", stringify!(cmap)));
+    be_table!(colr, BeId::Colr, concat!("be.", stringify!(colr)));
+    be_table!(cpal, BeId::Cpal, concat!("be.", stringify!(cpal)));
+    // signature of the recorded fvar defect: some, not all, instances carry the "no name" marker 0xFFFF
+    let fvar_kind = match be.fvar.try_get() {
+        Some(f) if f.axis_instance_arrays.instances.iter().any(|i| i.post_script_name_id.map(|n| n.to_u16()) == Some(0xFFFF)) => {
+            "be.fvar.psname-ffff"
+        }
+        _ => "be.fvar",
+    };
+    be_table!(fvar, BeId::Fvar, fvar_kind);
+    be_table!(gasp, BeId::Gasp, concat!("be.", stringify!(gasp)));
     be_item!(glyf, BeId::Glyf);
-    be_table!(gsub, BeId::Gsub, "");
-    be_table!(gpos, BeId::Gpos, "");
-    be_table!(gdef, BeId::Gdef, "");
+    be_table!(gsub, BeId::Gsub, concat!("be.", stringify!(gsub)));
+    be_table!(gpos, BeId::Gpos, concat!("be.", stringify!(gpos)));
+    be_table!(gdef, BeId::Gdef, concat!("be.", stringify!(gdef)));
     be_item!(gvar, BeId::Gvar);
-    be_table!(post, BeId::Post, "post");
-    be_table!(meta, BeId::Meta, "");
+    // signature of the recorded post defect: version 2 with an empty string pool
+    let post_kind = match be.post.try_get() {
+        Some(p) if p.string_data.as_ref().is_some_and(|d| d.is_empty()) => "be.post.empty-string-data",
+        _ => "be.post",
+    };
+    be_table!(post, BeId::Post, post_kind);
+    be_table!(meta, BeId::Meta, concat!("be.", stringify!(meta)));
     be_item!(loca, BeId::Loca);
     be_item!(loca_format, BeId::LocaFormat);
-    be_table!(maxp, BeId::Maxp, "");
-    be_table!(name, BeId::Name, "");
-    be_table!(os2, BeId::Os2, "");
-    be_table!(head, BeId::Head, "");
-    be_table!(hhea, BeId::Hhea, "");
+    be_table!(maxp, BeId::Maxp, concat!("be.", stringify!(maxp)));
+    be_table!(name, BeId::Name, concat!("be.", stringify!(name)));
+    be_table!(os2, BeId::Os2, concat!("be.", stringify!(os2)));
+    be_table!(head, BeId::Head, concat!("be.", stringify!(head)));
+    be_table!(hhea, BeId::Hhea, concat!("be.", stringify!(hhea)));
     be_item!(hmtx, BeId::Hmtx);
-    be_table!(hvar, BeId::Hvar, "");
-    be_table!(mvar, BeId::Mvar, "");
-    be_table!(vhea, BeId::Vhea, "");
+    be_table!(hvar, BeId::Hvar, concat!("be.", stringify!(hvar)));
+    be_table!(mvar, BeId::Mvar, concat!("be.", stringify!(mvar)));
+    be_table!(vhea, BeId::Vhea, concat!("be.", stringify!(vhea)));
     be_item!(vmtx, BeId::Vmtx);
-    be_table!(vvar, BeId::Vvar, "");
+    be_table!(vvar, BeId::Vvar, concat!("be.", stringify!(vvar)));
     be_item!(all_kerning_pairs, BeId::GatherIrKerning);
     be_item!(fea_ast, BeId::FeaturesAst);
     be_item!(fea_rs_kerns, BeId::GatherBeKerning);
     be_item!(fea_rs_marks, BeId::Marks);
-    be_table!(stat, BeId::Stat, "");
+    be_table!(stat, BeId::Stat, concat!("be.", stringify!(stat)));
     be_item!(font, BeId::Font);
     // `os2_builder` is documented as session-only ("Not serialized")
     a.item_with(
         "be.extra_fea_tables".into(),
-        "",
+        "be.extra_fea_tables",
         BeP::target_file(dir, &BeId::ExtraFeaTables),
         be.extra_fea_tables.try_get(),
         |x: &ExtraFeaTables, y: &ExtraFeaTables| {
@@ -704,7 +724,7 @@ fn audit(dir: &Path, fe: &FeContext, be: &BeContext) -> Audit {
     for (id, v) in be.glyphs.all() {
         if let AnyWorkId::Be(bid) = &id {
             // no PartialEq: compare name and binary glyph
-            let kind = if matches!(v.data, write_fonts::tables::glyf::Glyph::Empty) { "empty-glyph" } else { "" };
+            let kind = if matches!(v.data, write_fonts::tables::glyf::Glyph::Empty) { "be.glyf_fragment.empty" } else { "be.glyf_fragment" };
             a.item_with(format!("{id:?}"), kind, BeP::target_file(dir, bid), Some(v), |x: &fontbe::orchestration::Glyph, y| {
                 x.name == y.name && x.to_bytes() == y.to_bytes()
             });
@@ -713,14 +733,14 @@ fn audit(dir: &Path, fe: &FeContext, be: &BeContext) -> Audit {
     for (id, v) in be.gvar_fragments.all() {
         if let AnyWorkId::Be(bid) = &id {
             // no PartialEq on the struct: compare its two fields
-            a.item_with(format!("{id:?}"), "", BeP::target_file(dir, bid), Some(v), |x: &fontbe::orchestration::GvarFragment, y| {
+            a.item_with(format!("{id:?}"), "be.gvar_fragment", BeP::target_file(dir, bid), Some(v), |x: &fontbe::orchestration::GvarFragment, y| {
                 x.glyph_name == y.glyph_name && x.deltas == y.deltas
             });
         }
     }
     for (id, v) in be.kern_fragments.all() {
         if let AnyWorkId::Be(bid) = &id {
-            a.item(format!("{id:?}"), "", BeP::target_file(dir, bid), Some(v));
+            a.item(format!("{id:?}"), "be.kern_fragment", BeP::target_file(dir, bid), Some(v));
         }
     }
     a
@@ -813,14 +833,18 @@ fn emit_case(i: usize, sources: &[PathBuf]) -> Vec<S> {
         by_path.entry(it.2.clone()).or_default().push(k);
     }
     let shared: Vec<usize> = by_path.values().filter(|v| v.len() > 1).flatten().copied().collect();
-    let shared_kern = shared.iter().filter(|k| a.items[**k].1 == "kern").count();
+    let shared_kern = shared.iter().filter(|k| a.items[**k].1 == "fe.kern_instance").count();
     let missing = a.items.iter().filter(|it| it.3.is_none()).count();
     let checked = a.items.iter().filter(|it| it.3.is_some()).count();
     let differs: Vec<usize> = (0..a.items.len()).filter(|k| a.items[*k].3 == Some(false)).collect();
-    let differs_kern_shared = differs.iter().filter(|k| a.items[**k].1 == "kern" && shared.contains(k)).count();
-    let differs_post = differs.iter().filter(|k| a.items[**k].1 == "post").count();
-    let differs_empty_glyph = differs.iter().filter(|k| a.items[**k].1 == "empty-glyph").count();
-    let differs_fvar = differs.iter().filter(|k| a.items[**k].1 == "fvar").count();
+    let differs_kern_shared = differs.iter().filter(|k| a.items[**k].1 == "fe.kern_instance" && shared.contains(k)).count();
+    // differing items per kind (kern instances that share a file are counted above, not here)
+    let mut by_kind: std::collections::BTreeMap<String, usize> = Default::default();
+    for k in &differs {
+        if !(a.items[*k].1 == "fe.kern_instance" && shared.contains(k)) {
+            *by_kind.entry(a.items[*k].1.clone()).or_default() += 1;
+        }
+    }
     let mut files = vec![];
     walk_files(&ir_dir, &mut files);
     // `features.marker` is written by the FEA job itself (fontbe/src/features.rs), not through a context item
@@ -849,9 +873,7 @@ fn emit_case(i: usize, sources: &[PathBuf]) -> Vec<S> {
         S::k1("readback_checked", S::usize(checked)),
         S::k1("readback_differs", S::usize(differs.len())),
         S::k1("readback_differs_kern_shared", S::usize(differs_kern_shared)),
-        S::k1("readback_differs_post", S::usize(differs_post)),
-        S::k1("readback_differs_empty_glyph", S::usize(differs_empty_glyph)),
-        S::k1("readback_differs_fvar", S::usize(differs_fvar)),
+        S::k1("readback_differs_kinds", S::list(by_kind.iter().map(|(k, n)| S::list([S::atom(k.clone()), S::usize(*n)])))),
         S::k1("notes", S::str(&notes.join("; "))),
     ]));
     fields
